@@ -12,7 +12,7 @@ RULE = ("cases = (a) IniFile histories on one path: an INI text generated from s
         "outer-blank-free values, optional blanks around key, '=' and value), '#'/';' comments and blank lines, LF or CRLF, with "
         "or without final newline, lines longer than the 255-byte fgets chunk; then up to 20 set()/operator[]= calls on existing "
         "keys, new keys in existing sections, new sections and section-less keys, interleaved with get/values, explicit write() "
-        "and/or destruction, reopen, and a fresh read-only IniFile at the end; (b) the same as one composite op judged by an "
+        "and/or destruction, reopen, and a fresh read-only IniFile at the end; an IniFile on a path that opens but cannot be read (a directory); (b) the same as one composite op judged by an "
         "independent python INI semantics; (c) 'wild' INI texts outside the grammar (garbage lines, unclosed or indented headers, "
         "'/' in keys, blank-padded values) for the model correspondence only; (d) tables up to 30x8 written through "
         "TabularDataFile (cell by cell, and rows handed over as array Vars incl. the same array object sent again and arrays shorter/longer "
@@ -409,6 +409,10 @@ def gen(rng, tier):
         cases.append(ini_history(rng, tier, True))
     for _ in range(150 * k):
         cases.append(ini_composite(rng, tier, True))
+    for _ in range(12 * k):
+        # a path that opens but cannot be read (a directory): the constructor must return, sets stay in memory
+        sets = gen_sets(rng, [], rng.randrange(0, 4), False)
+        cases.append(["inidir %d" % (1 if rng.random() < 0.4 else 0) + "".join(" %s %s" % (hexs(n), hexs(v)) for n, v in sets)])
     for _ in range(500 * k):
         cases.append(csv_case(rng, tier))
     for _ in range(250 * k):
@@ -436,7 +440,7 @@ def nontrivial(case):
         t = l.split()
         if t[0] in ("set", "put") or (t[0] == "inirt" and len(t) > 3 and t[2] not in ("-", "none")):
             return True
-        if t[0] in ("tabws", "tabrts"):
+        if t[0] in ("tabws", "tabrts", "inidir"):
             return True
         if t[0] in ("tabw", "tabrt", "tabrtx") and any(c not in ("s:-", "[", "]", "=") for c in t[2 + int(t[1]):]):
             return True
@@ -659,7 +663,8 @@ LEVEL_TEXT = ("Proved in Lean 4 about the model that the driver runs against the
               "the section-less group, interleaved with any number of explicit write() calls and ended by the destructor's write, a "
               "fresh IniFile on the resulting file returns for every section/key the last value set, else the document's value, and "
               "the resulting file is again a document of the grammar with that meaning (so the statement composes over sessions); "
-              "(3) ini_write_in_bounds: for any NUL-free file bytes or a missing file and any set / operator[]= / write history with any NUL-free "
+              "ini_unreadable_path: an IniFile on a path that opens but cannot be read (a directory) is the IniFile of an empty file (with the "
+              "repaired TextFile::end(), 4bfeeba) and stays in bounds; (3) ini_write_in_bounds: for any NUL-free file bytes or a missing file and any set / operator[]= / write history with any NUL-free "
               "byte strings, write never reads outside _lines; (4) ini_order: for any object state the written text contains all lines of "
               "_lines in order, non-entry lines byte for byte, entry lines respelled key=value with the same key, new lines only inserted; "
               "ini_order_file: end to end for every document and session as in (2), the file left is either the old text or consists of "
